@@ -98,6 +98,23 @@ def run(ctx):
         if a[0] == "ok" and b[0] == "ok" and list(a[1:3]) != list(b[1:3]):
             viol.append({"kind": "history", "op": "custom_variant", "problem": c["problem"], "cfg": c["cfg"],
                          "detail": f"a custom propagator (shipped compute function + own triggers) behaves differently after another variant of the same compute function was registered: statistics {b[2]} vs {a[2]}"})
+    # heuristic parameters passed as an int64 array that the caller overwrites after the solver was built
+    ap = []
+    for c in base:
+        pj = c["problem"]
+        if c["op"] == "solve" and all(lo >= 0 for lo, hi in pj["shr_domains"]) and len(ap) < (25 if ctx["tier"] == "quick" else 500):
+            maxv = max(hi for lo, hi in pj["shr_domains"])
+            costs = [[rng.choice([1, 2, 3, 5, 8]) for _ in range(maxv + 1)] for _ in pj["shr_domains"]]
+            ap.append(dict(c, op="alias_params", costs=costs, limit=None))
+    ap_a = ce.run_impl([dict(c, overwrite=False) for c in ap], jit=False, tag="C15a")
+    ap_b = ce.run_impl([dict(c, overwrite=True) for c in ap], jit=False, tag="C15b")
+    for c, a, b in zip(ap, ap_a, ap_b):
+        report.cov["evaluations"] += 2
+        report.count("history_op", "parameter_buffer_reused")
+        if a[0] == "ok" and b[0] == "ok" and list(a[1:3]) != list(b[1:3]):
+            viol.append({"kind": "history", "op": "alias_params", "problem": c["problem"], "cfg": c["cfg"], "costs": c["costs"],
+                         "detail": "a solver configured with cost tables given as an int64 array changes its behaviour when the caller overwrites that "
+                                   f"array after construction: {str(b[1])[:120]} vs {str(a[1])[:120]}"})
     # one filtering call, interpreted versus compiled, for every algorithm (small scope sample + random + wide magnitudes)
     import json
     import os
